@@ -100,6 +100,9 @@ def run_case(case):
                 for t in (DL, DD):
                     S("list", p.call("i", "hx_an_list", V("an"), t, tt, tr, Out(12 * 400), 400), t, ti)
             S("fileinfo", p.call("i", "ANfileinfo", V("an"), Out(4), Out(4), Out(4), Out(4)))
+            for t in (DL, DD, FL, FD):
+                S("atype2tag", p.call("u", "ANatype2tag", t), t)
+                S("tag2atype", p.call("i", "ANtag2atype", ANN_TAG[t]), t)
             S("readall", None)
 
         def ensure_an():
@@ -441,6 +444,12 @@ def run_case(case):
                     want = [sum(1 for x in list(model.values()) + dfan_anns if x["type"] == t) for t in (FL, FD, DL, DD)]
                     if r.ret != 0 or c != want:
                         raise Fail("ANfileinfo differs", expected=want, observed=c)
+                elif role == "atype2tag":
+                    if r.ret != ANN_TAG[a[0]]:
+                        raise Fail("ANatype2tag differs", type=a[0], expected=ANN_TAG[a[0]], observed=r.ret)
+                elif role == "tag2atype":
+                    if r.ret != a[0]:
+                        raise Fail("ANtag2atype differs", tag=ANN_TAG[a[0]], expected=a[0], observed=r.ret)
                 elif role == "tr2id":
                     if r.ret == -1:
                         raise Fail("ANtagref2id failed for an existing annotation", ident=list(slots[a[0]]))
